@@ -1313,20 +1313,19 @@ func nonNegDischarge(c *Ctx, call *ssa.Call) (bool, string) {
 			// duration = t.Sub(start): non-negative when both clock reads are ordered by the collector mutex
 			n0 := len(c.Obs)
 			guard := ""
-			for _, fl := range p.StructFields(ttmT) {
-				if isSyncType(fl.Type()) && strings.Contains(fl.Type().String(), "Mutex") {
-					guard = ttmT + "." + fl.Name()
-				}
+			tm := findTT(c, "NONNEG")
+			if tm != nil {
+				guard = tm.guard
 			}
 			okClock := guard != ""
 			for _, fn := range p.FnsIn("prometheus") {
 				for _, cl := range eng.Calls(fn) {
 					cc, ok := cl.(*ssa.Call)
-					if !ok || !isClockCall(c, cc) {
+					if !ok || !isClockCall(c, cc) || tm == nil {
 						continue
 					}
 					var sinks []string
-					timeSinks(c, cc, map[ssa.Value]bool{}, &sinks)
+					timeSinks(c, tm, cc, map[ssa.Value]bool{}, &sinks)
 					if len(sinks) > 0 && !c.L().Held(cc).Has(guard) {
 						okClock = false
 						return false, fmt.Sprintf("Counter.Add(d.Seconds()) where the clock read at %s is made outside %s: the duration can be negative and Add panics with the mutex held", p.IPos(cc), guard)
